@@ -364,11 +364,30 @@ func (w *world) checkStealOnWrite(key string, svc *v1.Service) {
 				sig := ""
 				if inc.curSeen != nil && len(statusAddrs(inc.curSeen)) > 0 {
 					sig = "C06/restart-steal-by-service-whose-own-record-is-replaced"
+					if completesDualStack(inc.curSeen, statusAddrs(inc.curSeen), statusAddrs(svc)) {
+						sig = "C06/restart-steal-by-preferdualstack-completion"
+					}
 				}
 				w.violate(prop, inv, sig, fmt.Sprintf("incarnation %d writes %s to %s while %s has it recorded (still admissible) and they may not share (%s / %s)", inc.id, a, key, ok, specalloc.Describe(svc), specalloc.Describe(view)))
 			}
 		}
 	}
+}
+
+// completesDualStack: a PreferDualStack service whose single recorded address is kept and
+// complemented by one more address.
+func completesDualStack(s *v1.Service, before, after []netip.Addr) bool {
+	f := specalloc.FamiliesOf(s)
+	return f.Dual() && f.Policy == v1.IPFamilyPolicyPreferDualStack && len(before) == 1 && len(after) == 2 && containsAddr(after, before[0])
+}
+
+func containsAddr(l []netip.Addr, a netip.Addr) bool {
+	for _, x := range l {
+		if x == a {
+			return true
+		}
+	}
+	return false
 }
 
 // markLapsed remembers the services whose recorded addresses were inadmissible under some
@@ -506,7 +525,19 @@ func (w *world) atQuiescence() {
 					if f.Dual() && f.Policy == v1.IPFamilyPolicyPreferDualStack && len(was) == 1 && len(stat[key].IPs) == 2 {
 						continue
 					}
-					w.violate("C06", "recorded-address-lost-across-restart", "", fmt.Sprintf("%s had %v recorded (still admissible) when the controller stopped, after restart it has %v", key, was, stat[key].IPs))
+					sig := ""
+					for _, ok := range sortedKeys(stat) {
+						// the lost address went to a PreferDualStack service that kept its single recorded
+						// address and was completed with this one during the first sync after the restart
+						if ok == key || len(was) == 0 {
+							continue
+						}
+						o := w.getSvc(ok)
+						if o != nil && len(w.crashStatuses[ok]) == 1 && containsAddr(stat[ok].IPs, was[0]) && completesDualStack(o, w.crashStatuses[ok], stat[ok].IPs) {
+							sig = "C06/restart-steal-by-preferdualstack-completion"
+						}
+					}
+					w.violate("C06", "recorded-address-lost-across-restart", sig, fmt.Sprintf("%s had %v recorded (still admissible) when the controller stopped, after restart it has %v", key, was, stat[key].IPs))
 				}
 			}
 		}
@@ -651,11 +682,21 @@ func parseVariant(v string) map[string]string {
 }
 
 func kctlRun(env *runner.Env) *runner.Result {
+	if parseVariant(env.Variant)["modeA"] != "" {
+		return kctlModeARun(env)
+	}
 	w := &world{env: env, ch: env.Ch, srv: simk8s.NewServer(), stats: map[string]int64{}, writesBySvc: map[string]int{}, changedAt: map[string]int{}}
 	vm := parseVariant(env.Variant)
 	thorough := env.Tier == "thorough"
 	k := &w.k
-	k.crashAtStep, k.crashAtWrite = -1, -1
+	k.crashAtOpp, k.crashAtWrite = -1, -1
+	if vm["crashat"] != "" {
+		// crash-point enumeration (C06): the first decision is the crash point; no other fault
+		if j := w.ch.Intn(runner.EnumNone+1, "crash point"); j != runner.EnumNone {
+			k.crashAtOpp = j
+		}
+		vm["faults"] = "off"
+	}
 	if s, ok := vm["crashAtWrite"]; ok {
 		k.crashAtWrite, _ = strconv.Atoi(s)
 	}
@@ -689,6 +730,9 @@ func kctlRun(env *runner.Env) *runner.Result {
 	}
 	k.huge = env.On("C11") && w.ch.Bool(1, 3, "knob huge")
 	k.avoidKnown = vm["known"] != "only"
+	if vm["crashat"] != "" && k.nOps > 25 {
+		k.nOps = 25
+	}
 	w.faultsOn = faults
 	w.opsLeft = k.nOps
 	if k.mapOrder {
@@ -745,7 +789,7 @@ func kctlRun(env *runner.Env) *runner.Result {
 			}
 		}
 	}
-	res := &runner.Result{Violation: w.viol, Known: w.known, Stats: w.stats, SimTime: w.now, Steps: w.steps, SchedHash: w.sched.h, StateHashes: w.stateHashes, NonTrivial: w.nontrivial, Log: w.log}
+	res := &runner.Result{EnumPoints: w.opp, Violation: w.viol, Known: w.known, Stats: w.stats, SimTime: w.now, Steps: w.steps, SchedHash: w.sched.h, StateHashes: w.stateHashes, NonTrivial: w.nontrivial, Log: w.log}
 	w.stats["incarnations"] = int64(w.nInc)
 	w.stats["status-writes"] = int64(w.writes)
 	w.stats["quiescences"] = int64(w.quiesced)
